@@ -1,4 +1,6 @@
-(** Correspondence for C20: the real RuleDependencyCheck.Check on generated entry sets vs Model/Dependency.check. *)
+(** Correspondence for C20: (a) the real RuleDependencyCheck.Check on generated entry sets vs Model/Dependency.check;
+    (c) the real git.Changes + GlobFinder + GitBranchFinder.Find + routing + Check on scratch git histories vs the composed
+    model Model/Dependency.pipeline (= Model/GitBranch.find, then report on every final entry). *)
 From Coq Require Import List String ZArith NArith Bool.
 From PintV Require Import Common.Bytes.
 From PintV Require Export Model.GitBranch Model.Dependency.
@@ -9,7 +11,7 @@ Open Scope string_scope.
 Definition obs := option (Z * Z * string * string).
 
 (** [c_selected]: per entry, whether config.GetChecksForEntry (pint ci routing) selects rule/dependency for it *)
-Record case := { c_id : N; c_entries : list dentry; c_observed : list obs; c_selected : list bool }.
+Record es_case := { c_id : N; c_entries : list dentry; c_observed : list obs; c_selected : list bool }.
 
 Fixpoint bools_eqb (a b : list bool) : bool :=
   match a, b with
@@ -45,17 +47,56 @@ Fixpoint presence_eqb (a b : list obs) : bool :=
   | _, _ => false
   end.
 
-Definition check_case (c : case) : option string :=
+Definition check_es (c : es_case) : option string :=
   let got := map (fun e => proj (check e (c_entries c))) (c_entries c) in
   if negb (bools_eqb (map dispatched (c_entries c)) (c_selected c)) then Some "dispatch"
   else if all_eqb got (c_observed c) then None
   else if presence_eqb got (c_observed c) then Some "details-or-lines" else Some "problem-presence".
 
+(** (c) observed per entry of the real final list, in order: (path, first line, last line, state, problem) *)
+Definition pobs := (string * Z * Z * state * obs)%type.
+
+Record pipe_case := {
+  pc_glob : list entry;
+  pc_changes : list change_in;
+  pc_info : list (N * info);
+  pc_observed : list pobs
+}.
+
+Definition pobs_eqb (x y : pobs) : bool :=
+  let '(p1, f1, l1, s1, o1) := x in let '(p2, f2, l2, s2, o2) := y in
+  String.eqb p1 p2 && Z.eqb f1 f2 && Z.eqb l1 l2 && state_eqb s1 s2 && obs_eqb o1 o2.
+
+Definition pos_eqb (x y : pobs) : bool :=
+  let '(p1, f1, l1, s1, _) := x in let '(p2, f2, l2, s2, _) := y in
+  String.eqb p1 p2 && Z.eqb f1 f2 && Z.eqb l1 l2 && state_eqb s1 s2.
+
+Fixpoint list_eqb {A} (eqb : A -> A -> bool) (a b : list A) : bool :=
+  match a, b with
+  | [], [] => true
+  | x :: a', y :: b' => eqb x y && list_eqb eqb a' b'
+  | _, _ => false
+  end.
+
+Definition check_pipe (c : pipe_case) : option string :=
+  let got := map (fun dp => let '(d, p) := dp in (d_path d, d_first d, d_last d, d_state d, proj p))
+                 (pipeline (pc_info c) (pc_glob c) (pc_changes c)) in
+  if list_eqb pobs_eqb got (pc_observed c) then None
+  else if list_eqb pos_eqb got (pc_observed c) then Some "pipeline:problems" else Some "pipeline:find-states".
+
+Inductive case :=
+| EntrySet (c : es_case)
+| Pipeline (id : N) (c : pipe_case).
+
+Definition case_id (c : case) : N := match c with EntrySet c => c_id c | Pipeline id _ => id end.
+Definition check_case (c : case) : option string :=
+  match c with EntrySet c => check_es c | Pipeline _ c => check_pipe c end.
+
 Fixpoint mismatches (cs : list case) : list (N * string) :=
   match cs with
   | [] => []
   | c :: r => match check_case c with
-              | Some t => (c_id c, t) :: mismatches r
+              | Some t => (case_id c, t) :: mismatches r
               | None => mismatches r
               end
   end.
